@@ -212,7 +212,8 @@ def zmk(nparts, plen=32):
         kc = SymStr.of(kcv)
         require(len(kc.cells) == 6 and nibs_eq([symstr._nib_of_char(c) for c in kc.cells], e0[:6]),
                 'key check value is not the first six hex digits of E(key, zeros)', key='C14/kcv', replay=rp)
-        for n in (0, 1, 4, 5, 7, 16):
+        e0 = e0 + e0                     # the check value is taken from the encryption of sixteen zero bytes: the block repeats
+        for n in (0, 1, 4, 5, 7, 16, 17, 24, 32):
             kn = SymStr.of(k.calculate_kcv(keyb, n) if n else k.calculate_kcv(keyb, 0))
             require(len(kn.cells) == n and nibs_eq([symstr._nib_of_char(c) for c in kn.cells], e0[:n]) if n else len(kn.cells) == 0,
                     'calculate_kcv(kvc_length=%d)' % n, key='C14/kcv', replay=rp)
